@@ -21,12 +21,16 @@ echo "demo with change rc=$RC_WITH (want !=0), without rc=$RC_WITHOUT (want 0), 
 if [ $RC_WITH -eq 0 ] || [ $RC_WITHOUT -ne 0 ] || [ $RC_SUITE -ne 0 ]; then echo "SEED NOT CONFIRMED"; exit 1; fi
 mkdir -p /verif/seeded/$NAME
 rm -rf /verif/seeded/$NAME/*; cp -r SEED/* /verif/seeded/$NAME/
-# run the checks against the scratch worktree that has the change applied (VERIF_REPO), so that /repo itself stays untouched and
-# nothing else that is running against /repo is disturbed; equivalent to `git -C /repo apply` + check + undo
-cd "$WT"; git diff --quiet && git apply SEED/patch.diff
+# run the checks against a FRESH scratch worktree of /repo's current HEAD with the change applied (VERIF_REPO), so that /repo itself
+# stays untouched and nothing else that is running against /repo is disturbed; equivalent to `git -C /repo apply` + check + undo
+RUNWT=/tmp/seedrun-$NAME
+git -C /repo worktree remove --force $RUNWT 2>/dev/null
+git -C /repo worktree add -q --detach $RUNWT HEAD || exit 2
+trap 'git -C /repo worktree remove --force '$RUNWT' 2>/dev/null; rm -rf /verif/harness/.build-*' EXIT
+cd $RUNWT; git apply /verif/seeded/$NAME/patch.diff || { echo "patch does not apply to current HEAD"; exit 2; }
 RES=""
 for ID in "$@"; do
-  OUT=$(VERIF_REPO="$WT" /verif/check.sh $ID quick 2>&1); RC=$?
+  OUT=$(VERIF_REPO="$RUNWT" /verif/check.sh $ID quick 2>&1); RC=$?
   NV=$(echo "$OUT" | grep -c '^VIOLATION')
   echo "== $ID quick: rc=$RC violations=$NV"
   echo "$OUT" | grep "violations with sig\|BUILD-FAILED" | head -5
